@@ -147,7 +147,12 @@ func VerifyFunc(ld *Loader, pkg *Pkg, key string) (res *FuncResult) {
 					debug.PrintStack()
 				}
 			default:
-				panic(r)
+				// any other failure of the generator on this function: the function
+				// counts as outside the verifiable subset (its obligations fail)
+				msg = fmt.Sprintf("internal: %v", r)
+				if os.Getenv("GOVC_DEBUG") != "" {
+					debug.PrintStack()
+				}
 			}
 			res.Unsup = msg
 			// every obligation of the function counts as failed
